@@ -743,7 +743,7 @@ impl Check for C05 {
     }
     fn cases(&self, tier: Tier) -> u32 {
         match tier {
-            Tier::Quick => 30_000,
+            Tier::Quick => 60_000,
             Tier::Thorough => 1_000_000,
         }
     }
